@@ -245,4 +245,10 @@ theorem fact_no_request_under_lock :
 /-- the scan is not vacuous: it rejects a request made under the lock -/
 example : noRequestUnderLock ["lock:active", "defer-unlock:active", "request"] [false] = false := by decide
 
+/-- T1: `(*Store).Close` stops the poller and waits for it - and does nothing else: it does not
+touch the values handles (and slices already handed out) refer to. -/
+theorem fact_close_only_stops_the_poller :
+    Facts.storeCloseBody = ["s.cancel()", "<-s.done", "return nil"] := by
+  decide
+
 end Setec.C12
